@@ -655,7 +655,8 @@ theorem rel_wjoin (s : World) (j : JState) (h : Rel s j) (w : Nat) (t : Int) :
           have hsl : (t.toNat - 0 + 9) / 10 = sleepsFor t.toNat := by simp [sleepsFor, pollMs]
           rw [hja, hsl]
           rw [judgeRun_single h]
-          simp only [judgeCore, hj, jwOf, hex, decide_false, Bool.false_eq_true, if_false, Nat.zero_add, Nat.le_refl, if_true]
+          simp only [judgeCore, hj, jwOf, hex, decide_false, Bool.false_eq_true, if_false, Nat.zero_add, Nat.le_refl, if_true,
+            Nat.lt_irrefl]
           have := rel_setW_model h w k { k with joined := decide (JoinRes.rc0 = JoinRes.rc1) } hg
             (by simp [jwOf]; simpa using hnj) ⟨hok.phase, hok.state⟩
           simpa using this
